@@ -15,7 +15,7 @@ None == [m |-> <<>>, e |-> {}, alt |-> "none", fl |-> <<>>]
 
 \* the namespace of must/when conditions is not comparable across a deviation and its edit form
 RECURSIVE NoCondNs(_)
-NoCondNs(n) == [n EXCEPT !.musts = {[text |-> m.text, ns |-> ""] : m \in n.musts}, !.whens = {[text |-> w.text, ns |-> "", asparent |-> FALSE] : w \in n.whens},
+NoCondNs(n) == [n EXCEPT !.musts = {[text |-> m.text, ns |-> ""] : m \in n.musts}, !.whens = [i \in 1..Len(n.whens) |-> [n.whens[i] EXCEPT !.ns = ""]],
                          !.children = {NoCondNs(c) : c \in n.children}]
 RECURSIVE NoUses(_)
 NoUses(s) == s.kw \notin {"uses", "grouping"} /\ \A i \in 1..Len(s.subs) : NoUses(s.subs[i])
